@@ -45,7 +45,16 @@ def random_cases(rng, n):
                 {"k": "append", "periodic": rng.random() < 0.5}, {"k": "normalize_y", "lo": R(0), "hi": R(rng.choice([1, 10]))}]))
         if pre and any(o["k"] == "normalize_y" for o in pre) and len(set(ys)) < 2:
             pre = []
-        out.append({"fn": "smooth", "x": [R(v) for v in xs], "y": [R(v) for v in ys], "s_f": s, "pre": pre,
+        cont = "array"
+        if rng.random() < 0.2:        # integer-valued series handed over in integer-typed arrays (only dtype-preserving steps before)
+            xs = [Fraction(int(v * 4)) for v in xs]
+            ys = [Fraction(int(v * 4)) for v in ys] if not affine else [Fraction(int(sl * 4)) * v + int(ic) for v in xs]
+            pre = [o for o in pre if o["k"] == "append" or (o["k"] in ("scale_y", "shift_y", "scale_x", "shift_x") and o["v"][1] == 1)]
+            for o in pre:
+                if o["k"] != "append":
+                    o["as_int"] = True
+            cont = rng.choice(["int", "int32", "list"])
+        out.append({"fn": "smooth", "x": [R(v) for v in xs], "y": [R(v) for v in ys], "s_f": s, "pre": pre, "container": cont,
                     # (an appended sample breaks affinity; scale / shift / normalise keep it)
                     "identity_expected": bool(s == 0.0 or (affine and not any(o["k"] == "append" for o in pre))), "affine": affine})
     return out
